@@ -150,3 +150,30 @@ Theorem C18_discriminates :
 Proof.
   exact (conj as_slice_off_by_one_refuted (conj chunks_bad_add_refuted (proj1 assume_init_partial_refuted))).
 Qed.
+
+(* ---- tie to the current source: regenerated on every run by tools/ga2coq (coq/gen) ---- *)
+From Coq Require Import String.
+From GA Require Import Guards GuardTie.
+From GAGen Require Import GenGuards GenConstFns.
+Local Open Scope Z_scope.
+
+(* the const API: every function the model treats as const is declared `const fn` in the
+   source as it stands now, and every `const fn` of the source is covered by the model *)
+Theorem C18_source_const_declared :
+  forallb (fun n => is_macro_name n || existsb (String.eqb n) source_const_fns)
+          (map fst ConstEval.const_fns) = true.
+Proof. exact tie_const_fns_declared. Qed.
+
+Theorem C18_source_const_covered :
+  forallb (fun n => existsb (String.eqb n) (map fst ConstEval.const_fns)) source_const_fns = true.
+Proof. exact tie_const_fns_covered. Qed.
+
+Theorem C18_source_chunk_arith : forall L N,
+  let en := chunk_env chunks_from_slice_lets L N in
+  geval en N chunks_from_slice_count = L / N /\
+  geval en N chunks_from_slice_rem_offset = L / N * N /\
+  geval en N chunks_from_slice_rem_len = L - L / N * N /\
+  ctest (env1 "slice.len" L) N chunks_from_slice_zero_cond = (N =? 0) /\
+  rejects chunks_from_slice_zero_guard (env1 "slice.len" L) N = negb (L =? 0) /\
+  fails_by_panic chunks_from_slice_zero_guard = true.
+Proof. exact tie_chunks_arith. Qed.
